@@ -162,8 +162,8 @@ class AnsiDecoder:
                 iter_codes = iter(codes)
                 for code in iter_codes:
                     if code == 0:
-                        # reset
-                        self.style = _Style.null()
+                        # reset (the hyperlink is not an SGR attribute: it stays until OSC 8 closes it)
+                        self.style = _Style(link=self.style.link)
                     elif code in SGR_STYLE_MAP:
                         # styles
                         self.style += _Style.parse(SGR_STYLE_MAP[code])
